@@ -97,8 +97,20 @@ def sendPacketPreFix (e : Endpoint) (p : Pkt) : Endpoint :=
 def flushDeferred (e : Endpoint) : Endpoint :=
   e.deferred.foldl sendPacket { e with deferred := [] }
 
-/-- `send_newkeys`: NEWKEYS under the old keys, switch send keys, stage receive keys, flush -/
+/-- `send_newkeys`: NEWKEYS under the old keys, switch send keys, stage receive keys, restart the rekey timer
+    (repair of F145: a time limit that ran out DURING the exchange is forgotten, the byte count cannot have
+    advanced), flush -/
 def sendNewkeys (e : Endpoint) : Endpoint :=
+  let e1 := sendPacket e ⟨MSG_NEWKEYS, 0⟩
+  flushDeferred { e1 with sendEpoch := e1.sendEpoch + 1, nextRecvReady := true, kexActive := false,
+                          kexComplete := true, rekeyDue := false,
+                          sessionId := match e1.sessionId with
+                            | some h => some h
+                            | none => some e1.sendEpoch }
+
+/-- the code before the repair of F145: the rekey timer was restarted only when KEXINIT was sent, so a limit that
+    ran out during the exchange was still due when the deferred packets were flushed -/
+def sendNewkeysPreFix (e : Endpoint) : Endpoint :=
   let e1 := sendPacket e ⟨MSG_NEWKEYS, 0⟩
   flushDeferred { e1 with sendEpoch := e1.sendEpoch + 1, nextRecvReady := true, kexActive := false,
                           kexComplete := true,
